@@ -46,12 +46,12 @@ Theorem C04_conservation_ge :
   forall (dist : R * R -> R * R -> R),
     (forall p q, 0 <= dist p q) ->
     (forall p q r, dist p r <= dist p q + dist q r) ->
-    forall clamp fix3 fixdl fixz (glat glon : list R) (pts : list (R * R)) (vars : list (list R)),
+    forall clamp fix3 fixdl fixe fixz (glat glon : list R) (pts : list (R * R)) (vars : list (list R)),
       count_nonzero (@crossings RNum (map snd pts)) = O ->
       Forall (fun var => length var = length (pairs pts) /\ Forall (fun v => 0 <= v) var) vars ->
       (fix3 = true \/ Forall (fun s => dist (fst s) (snd s) <> 0) (pairs pts)) ->
       Forall2 (fun var out => Rsum var <= Rsum out) vars
-              (@grid_integrated RNum dist clamp fix3 fixdl fixz glat glon pts vars).
+              (@grid_integrated RNum dist clamp fix3 fixdl fixe fixz glat glon pts vars).
 Proof. exact grid_total_ge. Qed.
 Print Assumptions C04_conservation_ge.
 
@@ -74,12 +74,12 @@ Print Assumptions C04_chain_not_shorter.
 
 (* conservation_exact_on_additive_length *)
 Theorem C04_conservation_exact_on_additive_length :
-  forall (dist : R * R -> R * R -> R) clamp fix3 fixdl fixz (glat glon : list R) (pts : list (R * R)) (var : list R),
+  forall (dist : R * R -> R * R -> R) clamp fix3 fixdl fixe fixz (glat glon : list R) (pts : list (R * R)) (var : list R),
     count_nonzero (@crossings RNum (map snd pts)) = O ->
     length var = length (pairs pts) ->
     Forall (fun x => fst x <> 0 /\ Rsum (snd x) = fst x)
            (@attach_dists RNum dist (@part_geometry RNum clamp glat glon pts)) ->
-    forall out, @grid_integrated RNum dist clamp fix3 fixdl fixz glat glon pts [var] = [out] -> Rsum out = Rsum var.
+    forall out, @grid_integrated RNum dist clamp fix3 fixdl fixe fixz glat glon pts [var] = [out] -> Rsum out = Rsum var.
 Proof. exact grid_total_exact. Qed.
 Print Assumptions C04_conservation_exact_on_additive_length.
 
@@ -126,7 +126,7 @@ Theorem C04_zero_length_segment_dropped_refuted :
   exists (dist : R * R -> R * R -> R) (glat glon : list R) (pts : list (R * R)) (var out : list R),
     (forall p q, 0 <= dist p q) /\ (forall p, dist p p = 0) /\ (forall p q r, dist p r <= dist p q + dist q r) /\
     Forall (fun v => 0 <= v) var /\
-    (forall clamp fixdl fixz, @grid_integrated RNum dist clamp false fixdl fixz glat glon pts [var] = [out]) /\
+    (forall clamp fixdl fixe fixz, @grid_integrated RNum dist clamp false fixdl fixe fixz glat glon pts [var] = [out]) /\
     Rsum out < Rsum var.
 Proof.
   exists f3_dist, [0; 1], [0; 1], [(/2, /2); (/2, /2)], [5], [0].
@@ -138,8 +138,8 @@ Qed.
 Print Assumptions C04_zero_length_segment_dropped_refuted.
 
 Theorem C04_zero_length_segment_kept_witness :
-  forall clamp fixdl fixz,
-    @grid_integrated RNum f3_dist clamp true fixdl fixz [0; 1] [0; 1] [(/2, /2); (/2, /2)] [[5]] = [[5]].
+  forall clamp fixdl fixe fixz,
+    @grid_integrated RNum f3_dist clamp true fixdl fixe fixz [0; 1] [0; 1] [(/2, /2); (/2, /2)] [[5]] = [[5]].
 Proof. exact zero_length_kept_when_fixed. Qed.
 Print Assumptions C04_zero_length_segment_kept_witness.
 
@@ -153,11 +153,11 @@ Theorem C04_conservation_ge_crossing :
   forall (dist : R * R -> R * R -> R),
     (forall p q, 0 <= dist p q) ->
     (forall p q r, dist p r <= dist p q + dist q r) ->
-    forall clamp fixdl (glat glon : list R) (pts : list (R * R)) (var : list R),
+    forall clamp fixdl fixe (glat glon : list R) (pts : list (R * R)) (var : list R),
       count_nonzero (@crossings RNum (map snd pts)) = 1%nat ->
       length var = length (pairs pts) ->
       Forall (fun v => 0 <= v) var ->
-      forall out, @grid_integrated RNum dist clamp true fixdl true glat glon pts [var] = [out] ->
+      forall out, @grid_integrated RNum dist clamp true fixdl fixe true glat glon pts [var] = [out] ->
                   Rsum var <= Rsum out.
 Proof. exact grid_total_ge_crossing. Qed.
 Print Assumptions C04_conservation_ge_crossing.
@@ -176,7 +176,7 @@ Print Assumptions C04_l1_chain_exact.
    into FOUR pieces adding up to exactly 6 *)
 Example C04_four_piece_segment_exact :
   exists out,
-    @grid_integrated RNum f3_dist false true true true [0; 1; 2; 3] [0; 1; 2; 3] [(/2, /2); (5/2, 2)] [[6]] = [out] /\
+    @grid_integrated RNum f3_dist false true true true true [0; 1; 2; 3] [0; 1; 2; 3] [(/2, /2); (5/2, 2)] [[6]] = [out] /\
     length out = 4%nat /\ Rsum out = 6.
 Proof. exact ex_four_pieces_exact. Qed.
 Print Assumptions C04_four_piece_segment_exact.
